@@ -45,6 +45,7 @@ def main (args : List String) : IO UInt32 := do
   | ["model", "apps"] => engineLoop (fun (st : AppsState) l => stepApps st (splitWords l)) {} inp out; return 0
   | ["oracle", "C18", o, i] => oracleLoop oracleC18 {} o i
   | ["model", "dp"] => engineLoop (fun (st : Option DpCase) l => stepDp st (splitWords l)) none inp out; return 0
+  | ["model", "dpfdl"] => engineLoop (fun (st : Option DpCase) l => stepDp st (splitWords l)) none inp out; return 0
   | ["oracle", "C03", o, i] => oracleLoop oracleC03 ({}, {}) o i
   | ["oracle", "C04", o, i] => oracleLoop oracleC04 ({}, {}) o i
   | ["oracle", "C08", o, i] => oracleLoop oracleC08 ({}, {}) o i
